@@ -40,7 +40,11 @@ LEVEL_TEXT = (
     "glue on stubbed streams, plus simnet sessions (real Server and Client) against MemoryPathIO, PathIO and AsyncPathIO with "
     "os.utime-controlled mtimes, MLSD, LIST, the 502 fallback and stat(), listings with a backend fault at one entry "
     "(C07_mlsd_complete_or_fails: a completed listing is complete, a fault fails the command) and listing commands with other "
-    "commands between the 150 mark and the data connection; zones with DST at function level around every transition."
+    "commands between the 150 mark and the data connection; directory cardinality x backend (127..1025 entries, thorough 4097, on "
+    "PathIO / AsyncPathIO over a directory in the system temp dir and on MemoryPathIO; truth read back with os.listdir/os.lstat); "
+    "connection histories (refused commands before login / on forbidden or missing paths / unknown commands, then list(), recursive "
+    "list() and stat() on the same connection must agree with each other and the backend; C07_list_plan_history_independent: the "
+    "command that reads a listing is a function of that call alone); zones with DST at function level around every transition."
 )
 LEVEL_NOTE = (
     "Trusted: Coq kernel; extraction cross-checked with vm_compute; harness. Modelled, not verified: glibc strftime (%b %e %H %M %Y "
@@ -329,6 +333,8 @@ def impl_client_list(client, lines, raw, now_dt, mlsd_50x=False):
         return ("status", used)
     except (ValueError, KeyError, IndexError) as e:
         return ("err", err_tag(e), used)
+    except Exception as e:  # noqa: BLE001 - whatever else the implementation raises is an observation, not a harness failure
+        return ("exc", type(e).__name__ + ": " + str(e)[:120], used)
     finally:
         del client.get_stream
     return ("ok", used, got)
@@ -1109,6 +1115,9 @@ def correspondence(ctx, budget=None):
         ctx.traces_impl += 1
         nglue += 1
         r = impl_client_list(glue_client, batch, raw, d, mlsd_50x=m50)
+        if r[0] == "exc":
+            ctx.disagree("Client.list plan", [raw, m50], ["MLSD", "LIST", "StatusCodeError"][mp], list(r[:2]))
+            continue
         if mp == 2:
             if r[0] != "status":
                 ctx.disagree("Client.list plan", [raw, m50], "StatusCodeError", r[:2])
@@ -1153,6 +1162,9 @@ def correspondence(ctx, budget=None):
         ctx.traces_impl += 1
         nglue += 1
         r = impl_client_list(glue_client, b, "MLSD", naive(0))
+        if r[0] == "exc":
+            ctx.disagree("Client.list(MLSD) loop", b, "no exception of this class", list(r[:2]))
+            continue
         mm = ["ok", [[str(pathlib.PurePosixPath("d") / sx.txt(n)), [(sx.txt(k_), sx.txt(v_)) for k_, v_ in e]] for n, e in o[1]]] if o[0] != -1 else ["err", o[1]]
         im = ["ok", [[str(p_), list(i_.items())] for p_, i_ in r[2]]] if r[0] == "ok" else ["err", r[1]]
         if mm != im:
@@ -1221,7 +1233,7 @@ def wire_level(ctx, tp, thorough):
 
     rng = ctx.rng
     simnet.run(lambda net: _wire(ctx, tp, rng, thorough, net), wall_timeout=240 if thorough else 100)
-    for part in (_wire_faults, _wire_interleave):
+    for part in (_wire_faults, _wire_interleave, _wire_big, _wire_history):
         _t_mark(ctx, "f-wire:" + part.__name__)
         try:
             simnet.run(lambda net, _p=part: _p(ctx, tp, rng, thorough, net), wall_timeout=200 if thorough else 80)
@@ -1265,7 +1277,7 @@ def tree_spec(rng, now, n):
     return ents
 
 
-def check_listing(ctx, backend, cmd, truth_list, got, now, now2, what, extra=None):
+def check_listing(ctx, backend, cmd, truth_list, got, now, now2, what, extra=None, key=None):
     """oracle at the wire: each entry exactly once, none invented, exact type/size, time per command.
     truth_list: dicts name/kind/size/mtime/... as the BACKEND has them"""
     names = sorted(e["name"] for e in truth_list)
@@ -1319,8 +1331,8 @@ def check_listing(ctx, backend, cmd, truth_list, got, now, now2, what, extra=Non
             bad += rb[0]
     if bad:
         ctx.violation(f"{what}: {bad[:3]}",
-                      dict(extra or {}, key="c07-wire-" + cmd.lower(), backend=backend, now=now, client_now=now2,
-                           entries=truth_list, got=[[str(p), dict(i)] for p, i in got], bad=bad[:10]))
+                      dict(extra or {}, key=key or "c07-wire-" + cmd.lower(), backend=backend, now=now, client_now=now2,
+                           entries=truth_list, got=[[str(p), dict(i)] for p, i in got][:40], got_count=len(got), bad=bad[:10]))
 
 
 def model_listing(ctx, cmd, truth_list, now, now2, H, T):
@@ -1763,6 +1775,322 @@ async def _wire_interleave(ctx, tp, rng, thorough, net):
 
 
 # --------------------------------------------------------------------------------------------
+# --------------------------------------------------------------------------------------------
+# directory CARDINALITY x BACKEND (simnet): every shipped backend, directories larger than any plausible batch / buffer
+# size; the truth is READ BACK from the backend (os.listdir + os.lstat for the two file-system backends)
+BIG_CARDS_QUICK = [129, 1025, 257, 128, 300, 127]
+BIG_CARDS_THOROUGH = BIG_CARDS_QUICK + [255, 256, 513, 1024, 2049, 4097, 64, 1000]
+BIG_AGES = [1, 59, 61, 3600, DAY, 30 * DAY, SPEC_HALF + DAY, 400 * DAY, 10 * 365 * DAY]
+
+
+def big_spec(rng, now, n):
+    """n entries with plain names (the name alphabet is stream (f)'s and C08's matter): (name, kind, size, mtime, perm)"""
+    ents = []
+    for i in range(n):
+        kind = "dir" if rng.random() < 0.15 else "file"
+        name = ("d%04d" % i) if kind == "dir" else rng.choice(["f%04d.bin", "%04d", "x-%d.txt", "é%d", "a b %d"]) % i
+        size = rng.choice([0, 0, 1, 7, 100]) if kind == "file" else 0
+        ents.append((name, kind, size, now - rng.choice(BIG_AGES) - rng.randrange(60), rng.choice([0o644, 0o600, 0o755]) if kind == "file" else 0o755))
+    return ents
+
+
+def disk_dir(base, dname, ents):
+    """create the entries under base/dname on the real file system; -> the truth as the file system then reports it
+    (os.listdir + os.lstat), not what was meant to be created"""
+    import math
+
+    d = os.path.join(base, dname)
+    os.makedirs(d)
+    with open(os.path.join(base, "sibling-of-the-listed-directory"), "wb") as f:
+        f.write(b"s")
+    for name, kind, size, mtime, perm in ents:
+        if mtime < 0:
+            continue
+        p = os.path.join(d, name)
+        try:
+            if kind == "file":
+                with open(p, "wb") as f:
+                    f.write(b"x" * size)
+            else:
+                os.mkdir(p)
+            os.chmod(p, perm)
+            os.utime(p, ns=(mtime * 10**9, mtime * 10**9))
+        except OSError:
+            continue
+    truth = []
+    for name in os.listdir(d):
+        st = os.lstat(os.path.join(d, name))
+        truth.append({"name": name, "kind": "dir" if stat_mod.S_ISDIR(st.st_mode) else "file", "size": st.st_size, "mtime": math.floor(st.st_mtime),
+                      "ctime": math.floor(st.st_ctime), "nlink": st.st_nlink, "mode": st.st_mode})
+    return truth
+
+
+def memory_dir(dname, ents, extra_nodes=()):
+    """the same on the in-memory backend; -> (root node, truth read back from the node tree)"""
+    import io
+
+    from aioftp.pathio import Node
+
+    root = Node("dir", "/", content=[], ctime=1, mtime=1)
+    d = Node("dir", dname, content=[], ctime=1, mtime=1)
+    root.content += [d, Node("file", "sibling-of-the-listed-directory", ctime=5, mtime=5, content=io.BytesIO(b"s"))] + list(extra_nodes)
+    for name, kind, size, mtime, perm in ents:
+        if mtime == 0:
+            continue  # Node(mtime=0) means "now"
+        d.content.append(Node(kind, name, ctime=mtime - 5, mtime=mtime, content=io.BytesIO(b"x" * size) if kind == "file" else []))
+    truth = [{"name": n.name, "kind": n.type, "size": len(n.content.getbuffer()) if n.type == "file" else 0, "mtime": n.mtime, "ctime": n.ctime, "nlink": 1,
+              "mode": (stat_mod.S_IFREG | 0o666) if n.type == "file" else (stat_mod.S_IFDIR | 0o777)} for n in d.content]
+    return root, truth
+
+
+def backend_setup(backend, dname, ents, extra_nodes=()):
+    """-> (path_io_factory, base_path, truth, cleanup) for 'memory' | 'pathio' | 'asyncpathio'; the file-system backends
+    get a fresh directory under the system temp dir (outside the source tree and outside this repository)"""
+    import shutil
+    import tempfile
+
+    import aioftp
+
+    if backend == "memory":
+        root, truth = memory_dir(dname, ents, extra_nodes)
+        return (lambda *a, state=None, _root=root, **k: aioftp.MemoryPathIO(*a, state=[_root], **k)), "/", truth, (lambda: None)
+    tdir = tempfile.mkdtemp(prefix="c07-")
+    truth = disk_dir(tdir, dname, ents)
+    for n in extra_nodes:
+        os.mkdir(os.path.join(tdir, n.name))
+    return (aioftp.PathIO if backend == "pathio" else aioftp.AsyncPathIO), tdir, truth, (lambda: shutil.rmtree(tdir, ignore_errors=True))
+
+
+def entries_as_spec(entries):
+    return [(e["name"], e["kind"], e["size"] if e["kind"] == "file" else 0, e["mtime"], e.get("mode", 0o644) & 0o777 or 0o644) for e in entries]
+
+
+async def _big_one(cx, tp, backend, card, ents, now, now2, H, T, with_model, raws_by_flavour):
+    """one directory on one backend: every listing command on a fresh connection, compared with the backend's truth"""
+    import aioftp
+
+    dname = "big"
+    factory, base, truth, cleanup = backend_setup(backend, dname, ents)
+    n = 0
+    try:
+        for flavour, raws in raws_by_flavour:
+            server = aioftp.Server([aioftp.User(base_path=base, home_path="/")], path_io_factory=factory)
+            if flavour == "no-mlsx":
+                del server.commands_mapping["mlsd"], server.commands_mapping["mlst"]
+            await server.start("127.0.0.1", 0)
+            port = server.server.sockets[0].getsockname()[1]
+            try:
+                for raw in raws:
+                    cmd = "LIST" if raw == "LIST" or flavour == "no-mlsx" else "MLSD"
+                    client = aioftp.Client()
+                    tp.now = now
+                    set_client_now(naive(now2))
+                    what = f"{backend} {flavour} list(raw_command={raw!r}) of a directory with {len(truth)} entries"
+                    extra = {"directory": dname, "raw_command": raw, "flavour": flavour, "cardinality": len(truth)}
+                    cx.traces_impl += 1
+                    n += 1
+                    cx.case(("wire-big", backend, flavour, raw, card))
+                    try:
+                        await client.connect("127.0.0.1", port)
+                        await client.login()
+                        got = await client.list(dname, raw_command=raw)
+                    except Exception as e:  # noqa: BLE001 - a listing of an existing directory that fails is the observation
+                        cx.violation(f"{what}: fails with {e!r}"[:300],
+                                     dict(extra, key="c07-wire-" + cmd.lower(), backend=backend, now=now, client_now=now2, entries=truth, error=repr(e)[:300]))
+                        client.close()
+                        continue
+                    check_listing(cx, backend, cmd, truth, got, now, now2, what, extra)
+                    if with_model:
+                        mm = model_listing(cx, cmd, truth, now, now2, H, T)
+                        im = canon_got(cmd, got)
+                        if mm != im:
+                            cx.disagree("wire-big:" + what, {"entries": truth[:20], "now": now, "client_now": now2}, mm[:5], im[:5])
+                    await client.quit()
+            finally:
+                await server.close()
+    finally:
+        cleanup()
+    return n
+
+
+async def _wire_big(ctx, tp, rng, thorough, net):
+    H, T = (as_int(x) for x in consts())
+    now = ymd(2024, 3, 1, 0, 0, 30)
+    nsess = 0
+    seen = {}
+    t0 = real_time.time()
+    for i, card in enumerate(BIG_CARDS_THOROUGH if thorough else BIG_CARDS_QUICK):
+        ents = big_spec(rng, now, card)
+        now2 = now + rng.choice(SKEWS)
+        for backend in ("asyncpathio", "pathio", "memory"):
+            if real_time.time() - t0 > (150 if thorough else 45):
+                ctx.notes.append(f"wire-big: budget reached before {backend} x {card}")
+                continue
+            # all four ways to list on the first two sizes and on every size <= 300; the largest ones by MLSD and LIST
+            full = card <= 300
+            raws = [("full", ("MLSD", "LIST", None) if full else ("MLSD", "LIST"))] + ([("no-mlsx", (None,))] if full else [])
+            k = await _big_one(ctx, tp, backend, card, ents, now, now2, H, T, card <= 300, raws)
+            nsess += k
+            seen[(backend, card)] = k
+    for (b, c), k in sorted(seen.items()):
+        ctx.count(f"wire-big(simnet):{b} directory with {c} entries (listing sessions)", k)
+    ctx.count("wire-big(simnet):listing sessions (cardinality x backend x {MLSD, LIST, default, fallback from 502})", nsess)
+
+
+# --------------------------------------------------------------------------------------------
+# HISTORIES on one client connection (simnet): refused and accepted commands before the listing that is judged;
+# what list() reports = what stat() reports = the backend's truth, whatever happened earlier on the connection
+HIST_PRE = ["list", "list-recursive", "stat", "list-LIST", "list-MLSD", "unknown-command", "cwd-missing"]  # before login: all refused
+HIST_POST = ["list-forbidden", "list-missing", "stat-missing", "stat-forbidden", "list-LIST", "list-MLSD", "list", "list-recursive",
+             "cwd-missing", "unknown-command", "list-file", "list-bad-raw", "stat"]
+RAW_OF_STEP = {"list": None, "list-recursive": None, "list-LIST": "LIST", "list-MLSD": "MLSD"}
+
+
+async def hist_step(client, step, dname):
+    """one step of a history -> 'ok' | the refusing reply code | an exception class"""
+    import aioftp
+
+    try:
+        if step in RAW_OF_STEP:
+            await client.list(dname, recursive=step == "list-recursive", raw_command=RAW_OF_STEP[step])
+        elif step == "list-forbidden":
+            await client.list("secret")
+        elif step == "list-missing":
+            await client.list("no-such-directory")
+        elif step == "list-file":
+            await client.list("sibling-of-the-listed-directory")
+        elif step == "list-bad-raw":
+            await client.list(dname, raw_command="NLST")
+        elif step == "stat":
+            await client.stat(dname)
+        elif step == "stat-missing":
+            await client.stat("no-such-entry")
+        elif step == "stat-forbidden":
+            await client.stat("secret")
+        elif step == "cwd-missing":
+            await client.change_directory("no-such-directory")
+        elif step == "unknown-command":
+            await client.command("XYZZY", "2xx")
+        else:
+            raise AssertionError(step)
+        return "ok"
+    except aioftp.StatusCodeError as e:
+        return str(e.received_codes[-1])
+    except (ValueError, KeyError, IndexError, AttributeError, OSError) as e:
+        return type(e).__name__
+
+
+async def _run_history(cx, tp, backend, flavour, pre, post, dname, ents, now, now2):
+    """connect; `pre` steps (refused: not logged in); login; `post` steps; then the judged default listing, the recursive
+    one and stat() of entries on the SAME connection"""
+    import aioftp
+    from aioftp.pathio import Node
+
+    class RecClient(aioftp.Client):
+        sent = None
+
+        async def command(self, command=None, *a, **k):
+            if command:
+                self.sent.append(command.split(" ")[0])
+            return await super().command(command, *a, **k)
+
+    factory, base, truth, cleanup = backend_setup(backend, dname, ents, [Node("dir", "secret", content=[], ctime=7, mtime=7)])
+    user = aioftp.User(base_path=base, home_path="/", permissions=[aioftp.Permission("/", readable=True, writable=True),
+                                                                  aioftp.Permission("/secret", readable=False, writable=False)])
+    server = aioftp.Server([user], path_io_factory=factory)
+    if flavour == "no-mlsx":
+        del server.commands_mapping["mlsd"], server.commands_mapping["mlst"]
+    await server.start("127.0.0.1", 0)
+    client = RecClient()
+    client.sent = []
+    tp.now = now
+    set_client_now(naive(now2))
+    cmd = "MLSD" if flavour == "full" else "LIST"
+    hist = {"pre": list(pre), "post": list(post)}
+    extra = {"directory": dname, "flavour": flavour, "history": hist, "raw_command": None}
+    outcomes, calls, used = [], [], []
+    try:
+        await client.connect("127.0.0.1", server.server.sockets[0].getsockname()[1])
+        for st in pre:
+            outcomes.append((st, await hist_step(client, st, dname)))
+        await client.login()
+        for st in post:
+            k = len(client.sent)
+            o = await hist_step(client, st, dname)
+            outcomes.append((st, o))
+            if st in RAW_OF_STEP and o == "ok":
+                calls.append(RAW_OF_STEP[st])
+                used.append(sorted({c for c in client.sent[k:] if c in ("MLSD", "LIST")}))
+        hist["outcomes"] = outcomes
+        what = f"{backend} {flavour} list() after the history {outcomes}"
+        listed = {}
+        for rec in (False, True):
+            k = len(client.sent)
+            try:
+                got = await client.list(dname, recursive=rec)
+            except Exception as e:  # noqa: BLE001
+                cx.violation(f"{what}: the listing fails with {e!r}"[:400],
+                             dict(extra, key="c07-wire-history", backend=backend, now=now, client_now=now2, entries=truth, error=repr(e)[:300]))
+                return
+            calls.append(None)
+            used.append(sorted({c for c in client.sent[k:] if c in ("MLSD", "LIST")}))
+            check_listing(cx, backend, cmd, truth, got, now, now2, what + (" (recursive)" if rec else ""), extra, key="c07-wire-history")
+            if not rec:
+                listed = {str(p_.name): i_ for p_, i_ in got}
+        # list() and stat() tell the same about an entry (and stat() tells the backend's truth: stream (f))
+        for e in truth[:6]:
+            name = e["name"]
+            if name != name.strip() or name not in listed:
+                continue
+            try:
+                info = await client.stat(dname + "/" + name)
+            except (aioftp.StatusCodeError, ValueError) as ex:
+                info = {"error": repr(ex)[:200]}
+            diff = [(k_, listed[name].get(k_), info.get(k_)) for k_ in ("type", "size", "modify") if listed[name].get(k_) != info.get(k_)]
+            if diff:
+                cx.violation(f"{what}: list() and stat() disagree about {name!r}: (fact, list, stat) = {diff}"[:500],
+                             dict(extra, key="c07-wire-history", backend=backend, now=now, client_now=now2, entries=truth, name=name, differ=diff))
+        # which command read each accepted listing of this connection: the model's plan of that call ALONE
+        m50 = 1 if flavour == "no-mlsx" else 0
+        code = {None: 0, "MLSD": 1, "LIST": 2}
+        mo = cx.model([(37, [[[code[r_], m50] for r_ in calls]])])[0]
+        if mo is not None:
+            want = [["MLSD"] if p_ == 0 else (["LIST"] if r_ == "LIST" else ["LIST", "MLSD"]) if p_ == 1 else ["status"] for p_, r_ in zip(mo, calls)]
+            if want != used:
+                cx.disagree("Client.list plan over a connection history", {"history": hist, "flavour": flavour, "calls": calls}, want, used)
+        await client.quit()
+    finally:
+        client.close()
+        await server.close()
+        cleanup()
+
+
+async def _wire_history(ctx, tp, rng, thorough, net):
+    nh = 0
+    kinds = {}
+    t0 = real_time.time()
+    hists = [(["list"], []), ([], ["list-forbidden"]), ([], ["unknown-command"]), (["stat"], ["list-missing"]), ([], [])]
+    for _ in range(300 if thorough else 90):
+        hists.append(([rng.choice(HIST_PRE) for _ in range(rng.choice([0, 1, 1, 2, 3]))], [rng.choice(HIST_POST) for _ in range(rng.choice([0, 1, 2, 3, 5]))]))
+    for i, (pre, post) in enumerate(hists):
+        if real_time.time() - t0 > (120 if thorough else 40):
+            ctx.notes.append(f"wire-history: budget reached after {i} histories")
+            break
+        now = rng.choice([ymd(2024, 3, 1, 0, 0, 30), ymd(2025, 1, 1, 0, 10, 0), ymd(2023, 7, 2, 12, 0, 0), ymd(2024, 8, 29, 12, 0, 0)]) + rng.choice(DELTAS)
+        now2 = now + rng.choice(SKEWS)
+        ents = [e for e in tree_spec(rng, now, rng.choice([1, 3, 6])) if e[0] == e[0].strip()] or [("f", "file", 3, now - 61, 0o644)]
+        backend = ("memory", "memory", "pathio", "asyncpathio")[i % 4]
+        flavour = "no-mlsx" if i % 5 == 4 else "full"
+        ctx.traces_impl += 1
+        ctx.case(("wire-history", backend, flavour, tuple(pre), tuple(post)))
+        nh += 1
+        kinds[(len(pre), len(post))] = kinds.get((len(pre), len(post)), 0) + 1
+        await _run_history(ctx, tp, backend, flavour, pre, post, DIR_NAMES[i % 3], ents, now, now2)
+    ctx.count("wire-history(simnet):connection histories (refused / accepted commands, then list() + recursive list() + stat())", nh)
+    for (a, b), k in sorted(kinds.items()):
+        ctx.count(f"wire-history(simnet):histories with {a} steps before login and {b} after", k)
+
+
 def known(ctx):
     """re-run the canonical replay of every listed finding"""
     import aioftp
@@ -1832,6 +2160,16 @@ def replay_wire(ctx, tp, key, r):
     if key == "c07-wire-fault-entry-dropped":
         async def main(net):
             await _replay_fault(rc, tp, r)
+    elif key == "c07-wire-history":
+        async def main(net):
+            h = r["history"]
+            await _run_history(rc, tp, r.get("backend", "memory"), r["flavour"], h["pre"], h["post"], r["directory"], entries_as_spec(r["entries"]),
+                               r["now"], r["client_now"])
+    elif key in ("c07-wire-list", "c07-wire-mlsd") and "cardinality" in r:
+        async def main(net):
+            H, T = (as_int(x) for x in consts())
+            await _big_one(rc, tp, r["backend"], r["cardinality"], entries_as_spec(r["entries"]), r["now"], r["client_now"], H, T, False,
+                           [(r["flavour"], (r["raw_command"],))])
     elif key in ("c07-wire-list", "c07-wire-mlsd"):
         async def main(net):
             await _replay_listing(rc, tp, r)
@@ -1949,7 +2287,7 @@ def replay(ctx, data):
         want, region = date_oracle(int(r["mtime"] // 1), r["now"], r["client_now"], r.get("off", 0))
         print(f"formatted {s!r} parsed {got} expected {want} ({region}); recorded zone {r.get('zone', 'utc')}")
         return want is None or got == want
-    if key in ("c07-wire-fault-entry-dropped", "c07-wire-interleave-wrong-directory") or (key in ("c07-wire-list", "c07-wire-mlsd") and "directory" in r):
+    if key in ("c07-wire-fault-entry-dropped", "c07-wire-interleave-wrong-directory", "c07-wire-history") or (key in ("c07-wire-list", "c07-wire-mlsd") and "directory" in r):
         return replay_wire(ctx, tp, key, r)
     if key == "c07-ls-date-dst":
         o = run_tz_worker(r["zone"], [[r["mtime"], r["now"], r["client_now"]]])[0]
